@@ -799,4 +799,57 @@ pub mod verif_hooks {
             Err(_) => None,
         }
     }
+
+    fn indexed_context(index: usize, left: FieldValue) -> crate::interpreter::DataContext<usize> {
+        let mut ctx = crate::interpreter::DataContext::new(Some(index));
+        ctx.values.push(left);
+        ctx
+    }
+
+    fn survivors(
+        count: usize,
+        output: crate::interpreter::ContextIterator<'_, usize>,
+    ) -> Vec<bool> {
+        let mut survived = vec![false; count];
+        for ctx in output {
+            let index = *ctx.active_vertex::<usize>().expect("context lost its active vertex");
+            survived[index] = true;
+        }
+        survived
+    }
+
+    /// A whole stream of `(left, right)` pairs through ONE call of
+    /// `apply_filter_with_tagged_argument_value`: context `i` carries `pairs[i].0` as its pushed
+    /// value and the tag value `TaggedValue::Some(pairs[i].1)`, or
+    /// `TaggedValue::NonexistentOptional` when `pairs[i].1` is `None`.
+    /// `result[i]` is `true` iff context `i` survives the filter stage.
+    pub fn apply_tagged_stream(
+        filter: &crate::ir::Operation<(), &crate::ir::Argument>,
+        pairs: Vec<(FieldValue, Option<FieldValue>)>,
+    ) -> Vec<bool> {
+        let count = pairs.len();
+        let iterator = Box::new(pairs.into_iter().enumerate().map(|(index, (left, right))| {
+            let tagged_value = match right {
+                Some(right) => crate::interpreter::TaggedValue::Some(right),
+                None => crate::interpreter::TaggedValue::NonexistentOptional,
+            };
+            (indexed_context(index, left), tagged_value)
+        }));
+        survivors(count, super::apply_filter_with_tagged_argument_value(filter, iterator))
+    }
+
+    /// A whole stream of left values against one `right` value through ONE call of
+    /// `apply_filter_with_static_argument_value`. `result[i]` is `true` iff context `i`
+    /// (carrying `lefts[i]`) survives the filter stage.
+    pub fn apply_static_stream(
+        filter: &crate::ir::Operation<(), &crate::ir::Argument>,
+        right: FieldValue,
+        lefts: Vec<FieldValue>,
+    ) -> Vec<bool> {
+        let count = lefts.len();
+        let iterator = Box::new(
+            lefts.into_iter().enumerate().map(|(index, left)| indexed_context(index, left)),
+        );
+        survivors(count, super::apply_filter_with_static_argument_value(filter, right, iterator))
+    }
 }
